@@ -9,7 +9,7 @@ PROFILES = {
     "C01": {"ops": {"die": 0.14, "xkill": 0.06, "check": 0.2, "wake": 0.3},
             "req": {"incr": 0.3, "set": 0.12, "ssr": 0.15, "reload": 0.15, "kill": 0.05, "signal": 0.02, "rm": 0.01, "add": 0.02, "quit": 0.0, "ro": 0.05}},
     "C02": {"stubborn": 0.2, "ops": {"die": 0.1, "fault": 0.08, "check": 0.15},
-            "req": {"ssr": 0.45, "reload": 0.05, "incr": 0.1, "set": 0.05, "kill": 0.08, "signal": 0.03, "rm": 0.08, "add": 0.03, "quit": 0.02, "ro": 0.04}},
+            "req": {"ssr": 0.4, "reload": 0.05, "incr": 0.1, "set": 0.12, "kill": 0.07, "signal": 0.03, "rm": 0.08, "add": 0.03, "quit": 0.02, "ro": 0.03}},
     "C03": {"stubborn": 0.25, "ops": {"wake": 0.5, "die": 0.06, "adv": 0.08},
             "req": {"ssr": 0.3, "reload": 0.12, "incr": 0.15, "set": 0.08, "kill": 0.22, "signal": 0.02, "rm": 0.03, "add": 0.01, "quit": 0.01, "ro": 0.02}},
     "C04": {"exec_fail": 0.2, "hooks": True, "ops": {"die": 0.1, "fault": 0.08, "check": 0.2},
